@@ -261,7 +261,16 @@ def abstract_events(events, life=None):
                 if any(x['e'] == 'CUT' for x in out[-8:]) and rec['e'] == 'CUT' and \
                         out and out[-1]['e'] == 'CUT':
                     continue            # one CUT event per process
-                rec['s'] = 'eol' if lost[pid] == '\n' else 'data'
+                # only a line end was lost: the final one, if the process went
+                # on (every later write would have been logged as lost too);
+                # if it died there, the line end may be any line's (nothing
+                # written before it: certainly not the report's last)
+                if lost[pid] != '\n':
+                    rec['s'] = 'data'
+                elif not e.get('die'):
+                    rec['s'] = 'eol'
+                else:
+                    rec['s'] = 'maybe' if e.get('at') else 'data'
             elif k == 'T':
                 rec['t'] = e['t']
                 rec['s'] = e['ph']
